@@ -37,14 +37,14 @@ type Options struct {
 	TimeoutMs     int
 	FallbackMs    int
 	Deadline      time.Time
-	Prefix        []int // decision prefix owned by this worker (for parallel split)
+	MaxViolations int
 }
 
 func defaultOptions() Options {
 	return Options{
 		RepoRoot: "/repo", MaxSteps: 20_000_000, MaxDepth: 400, MaxAlloc: 1 << 22, Unwind: 64, ConcCap: 64,
 		MaxPaths: 200000, MaxGoroutines: 8, MaxSwitches: 256, MaxTimerFires: 64, MapOrderMax: 4,
-		TimeoutMs: 10000, FallbackMs: 20000,
+		TimeoutMs: 10000, FallbackMs: 20000, MaxViolations: 1,
 	}
 }
 
@@ -55,6 +55,9 @@ type decision struct {
 	tested bool    // feasibility of `chosen` established
 	vals   []int64 // concretisation: values found so far (chosen indexes into it)
 	forced bool    // other alternative known infeasible
+	altOK  bool    // br: the second alternative is already known feasible
+	model  map[string]*big.Int // model of PC ∧ chosen side (valid while this is the last decision)
+	altModel map[string]*big.Int
 }
 
 type inputVar struct {
@@ -122,6 +125,7 @@ type Result struct {
 	InitSkips      int            `json:"init_skips"`
 	WallS          float64        `json:"wall_s"`
 	KnownHits      map[string]int `json:"known_hits,omitempty"`
+	Workers        int            `json:"workers"`
 	Exhausted      bool           `json:"exhaustive_within_bounds"`
 	Notes          []string       `json:"notes,omitempty"`
 }
@@ -179,6 +183,13 @@ type Machine struct {
 	initSkips     int
 	known         []KnownFinding
 	knownHit      map[string]int
+	model         map[string]*big.Int
+	modelMemo     map[int]*big.Int
+	pcDoubt       bool
+	base          int
+	hidx          int
+	shared        *Shared
+	solverAcc     SolverStats
 	lastViolation *Violation
 	endModel      map[string]string
 	freshSeq, sigSeq, keySeq, hashSeq, fmtOpaque int
@@ -241,13 +252,25 @@ func (m *Machine) decide(kind string, n int, feasible func(i int) bool) int {
 		panic(pathEnd{kind: "infeasible"})
 	}
 	m.stack = append(m.stack, decision{kind: kind, chosen: c, n: n, tested: true})
+	if feasible == nil && m.shared != nil {
+		for alt := n - 1; alt > c; alt-- {
+			if !m.shared.hungry() {
+				break
+			}
+			job := m.copyStack()
+			job[len(job)-1] = decision{kind: kind, chosen: alt, n: alt + 1, tested: true, forced: true}
+			m.shared.push(Job{h: m.hidx, stack: job})
+			n = alt
+			m.stack[len(m.stack)-1].n = n
+		}
+	}
 	m.dpos++
 	m.res.Decisions++
 	return c
 }
 
 func (m *Machine) backtrack() bool {
-	for len(m.stack) > len(m.opts.Prefix) {
+	for len(m.stack) > m.base {
 		d := &m.stack[len(m.stack)-1]
 		if d.vals != nil || d.n < 0 {
 			// open-ended enumeration: try for one more value
@@ -258,7 +281,13 @@ func (m *Machine) backtrack() bool {
 			}
 		} else if d.chosen+1 < d.n && !d.forced {
 			d.chosen++
-			d.tested = false
+			if d.kind == "br" {
+				d.tested = d.altOK
+				d.model, d.altModel = d.altModel, nil
+			} else {
+				d.tested = false
+				d.model = nil
+			}
 			return true
 		}
 		m.stack = m.stack[:len(m.stack)-1]
@@ -272,6 +301,9 @@ func (m *Machine) assertPC(t *Term) {
 	}
 	m.pc = append(m.pc, t)
 	m.solver.Assert(t)
+	if m.model != nil && !m.evalBool(t) {
+		m.setModel(nil)
+	}
 }
 
 // branch forks on a symbolic condition and returns the side taken on this path.
@@ -292,43 +324,116 @@ func (m *Machine) branchAt(fr *frame, instr ssa.Instruction, cond *Term) bool {
 			panic(pathEnd{kind: "unwind", msg: fmt.Sprintf("more than %d symbolic iterations at %s", m.unwindCap, m.pos(instr.Pos()))})
 		}
 	}
-	var c int
-	if m.dpos < len(m.stack) && m.stack[m.dpos].tested {
-		c = m.decide("br", 2, nil)
-	} else {
-		firstInfeasible := false
-		c = m.decide("br", 2, func(i int) bool {
-			if i == 0 {
-				r, _ := m.solver.Check(cond, false)
-				if r == Unknown {
-					m.note("unknown_branch", "branch feasibility unknown; kept")
-				}
-				if r == Unsat {
-					firstInfeasible = true
-					return false
-				}
-				return true
+	sideCond := func(i int) *Term {
+		if i == 0 {
+			return cond
+		}
+		return m.pool.Not(cond)
+	}
+	var d *decision
+	if m.dpos < len(m.stack) {
+		d = &m.stack[m.dpos]
+		if d.kind != "br" {
+			panic(pathEnd{kind: "engine", msg: fmt.Sprintf("nondeterministic replay: decision %d is br, recorded %s", m.dpos, d.kind)})
+		}
+		if !d.tested {
+			r, model := m.solver.Check(sideCond(d.chosen), true)
+			if r == Unsat {
+				m.stack = m.stack[:m.dpos]
+				panic(pathEnd{kind: "infeasible"})
 			}
-			if firstInfeasible {
-				return true // the path condition is satisfiable, so the other side is
-			}
-			r, _ := m.solver.Check(m.pool.Not(cond), false)
 			if r == Unknown {
 				m.note("unknown_branch", "branch feasibility unknown; kept")
 			}
-			return r != Unsat
-		})
-		if firstInfeasible {
-			m.stack[m.dpos-1].forced = true
+			d.tested = true
+			d.model = model
 		}
+		if m.dpos == len(m.stack)-1 && d.model != nil {
+			m.setModel(d.model)
+		}
+	} else {
+		var feas [2]bool
+		var known [2]bool
+		var models [2]map[string]*big.Int
+		if m.model != nil {
+			v := 1
+			if m.evalBool(cond) {
+				v = 0
+			}
+			feas[v], known[v], models[v] = true, true, m.model
+		}
+		for i := 0; i < 2; i++ {
+			if known[i] {
+				continue
+			}
+			if known[1-i] && !feas[1-i] && !m.pcDoubt {
+				feas[i], known[i] = true, true // PC is satisfiable, the other side is not
+				continue
+			}
+			r, model := m.solver.Check(sideCond(i), true)
+			if r == Unknown {
+				m.note("unknown_branch", "branch feasibility unknown; kept")
+				m.pcDoubt = true
+			}
+			feas[i], known[i] = r != Unsat, true
+			if r == Sat {
+				models[i] = model
+			}
+		}
+		if !feas[0] && !feas[1] {
+			panic(pathEnd{kind: "infeasible"})
+		}
+		c := 0
+		if !feas[0] {
+			c = 1
+		}
+		both := feas[0] && feas[1]
+		m.stack = append(m.stack, decision{kind: "br", chosen: c, n: 2, tested: true, forced: !both, altOK: both, model: models[c]})
+		d = &m.stack[len(m.stack)-1]
+		if both {
+			d.altModel = models[1]
+			if m.shared != nil && m.shared.hungry() {
+				job := m.copyStack()
+				job[len(job)-1] = decision{kind: "br", chosen: 1, n: 2, tested: true, forced: true, model: models[1]}
+				m.shared.push(Job{h: m.hidx, stack: job})
+				d.forced = true
+				d.altModel = nil
+			}
+		}
+		m.res.Decisions++
+		m.setModel(models[c])
 	}
-	if c == 0 {
-		m.assertPC(cond)
-		return true
-	}
-	m.assertPC(m.pool.Not(cond))
-	return false
+	m.dpos++
+	m.assertPC(sideCond(d.chosen))
+	return d.chosen == 0
 }
+
+func (m *Machine) copyStack() []decision {
+	job := make([]decision, len(m.stack))
+	copy(job, m.stack)
+	for i := range job {
+		if job[i].vals != nil {
+			job[i].vals = append([]int64{}, job[i].vals...)
+		}
+		job[i].forced = true
+		job[i].model, job[i].altModel = nil, nil
+	}
+	return job
+}
+
+func (m *Machine) setModel(model map[string]*big.Int) {
+	m.model = model
+	m.modelMemo = nil
+}
+
+func (m *Machine) evalTerm(t *Term) *big.Int {
+	if m.modelMemo == nil {
+		m.modelMemo = map[int]*big.Int{}
+	}
+	return t.Eval(m.model, m.modelMemo, nil)
+}
+
+func (m *Machine) evalBool(t *Term) bool { return m.evalTerm(t).Sign() != 0 }
 
 // concretize forks over the feasible values of t (as a signed 64-bit number of its width).
 func (m *Machine) concretize(fr *frame, t *Term, what string) int64 {
@@ -361,7 +466,13 @@ func (m *Machine) concretize(fr *frame, t *Term, what string) int64 {
 		for _, v := range d.vals {
 			excl = m.pool.And(excl, m.pool.Not(m.pool.Eq(t, m.pool.ConstU(uint64(v), t.W))))
 		}
-		r, val := m.solver.CheckValue(excl, t)
+		var r SatResult
+		var val *big.Int
+		if len(d.vals) == 0 && m.model != nil {
+			r, val = Sat, m.evalTerm(t)
+		} else {
+			r, val = m.solver.CheckValue(excl, t)
+		}
 		if r != Sat {
 			if r == Unknown {
 				m.note("unknown_conc", "concretisation query unknown for "+what)
@@ -443,6 +554,9 @@ func (m *Machine) checkAssert(fr *frame, cond Value, id, msg string, pos string)
 			return
 		}
 		// concrete failure on a feasible path: get a model of the path condition
+		if m.model != nil {
+			m.violation(id, msg, pos, "assert", m.model)
+		}
 		r, model := m.solver.Check(nil, true)
 		if r != Sat {
 			m.note("unknown_assert", "model for failing path unavailable: "+id)
@@ -452,6 +566,10 @@ func (m *Machine) checkAssert(fr *frame, cond Value, id, msg string, pos string)
 		}
 		m.violation(id, msg, pos, "assert", model)
 	case *Term:
+		if m.model != nil && !m.evalBool(c) {
+			// the cached model of the path condition already falsifies the assertion
+			m.violation(id, msg, pos, "assert", m.model)
+		}
 		r, model := m.solver.Check(m.pool.Not(c), true)
 		switch r {
 		case Unsat:
@@ -471,6 +589,7 @@ func (m *Machine) checkAssert(fr *frame, cond Value, id, msg string, pos string)
 func (m *Machine) violation(id, msg, pos, kind string, model map[string]*big.Int) {
 	v := Violation{ID: id, Msg: msg, Pos: pos, Kind: kind, Model: modelStrings(model),
 		Choices: append([]int{}, m.choices...), Decisions: m.decisionString(), Inputs: append([]inputVar{}, m.inputs...)}
+	v.Extra = map[string]interface{}{"hashes": m.exportHashes(model)}
 	m.lastViolation = &v
 	panic(pathEnd{kind: "violation", msg: id})
 }
@@ -558,6 +677,7 @@ func (m *Machine) resetPath() {
 	m.stubs = map[string]Value{}
 	m.unwindCap = m.opts.Unwind
 	m.lastViolation = nil
+	m.model, m.modelMemo, m.pcDoubt = nil, nil, false
 	m.freshSeq, m.sigSeq, m.keySeq, m.hashSeq = 0, 0, 0, 0
 }
 
@@ -600,31 +720,112 @@ func (m *Machine) safePanicText(p targetPanic) (s string) {
 	return m.panicText(p)
 }
 
-func (m *Machine) explore(entry *ssa.Function, name string) *Result {
-	t0 := time.Now()
+// Shared is the global work queue of a run: jobs are (harness, decision prefix) pairs.
+type Job struct {
+	h     int
+	stack []decision
+}
+
+type Shared struct {
+	mu      sync.Mutex
+	cond    *sync.Cond
+	jobs    []Job
+	idle    int
+	workers int
+	stop    bool
+	stopped map[int]bool // harnesses whose exploration was cut (violation found, cap, deadline)
+}
+
+func newShared(workers int) *Shared {
+	s := &Shared{workers: workers, stopped: map[int]bool{}}
+	s.cond = sync.NewCond(&s.mu)
+	return s
+}
+
+func (s *Shared) hungry() bool {
+	s.mu.Lock()
+	defer s.mu.Unlock()
+	return !s.stop && len(s.jobs) < s.idle
+}
+
+func (s *Shared) isStopped(h int) bool {
+	s.mu.Lock()
+	defer s.mu.Unlock()
+	return s.stop || s.stopped[h]
+}
+
+func (s *Shared) stopHarness(h int) {
+	s.mu.Lock()
+	s.stopped[h] = true
+	k := s.jobs[:0]
+	for _, j := range s.jobs {
+		if j.h != h {
+			k = append(k, j)
+		}
+	}
+	s.jobs = k
+	s.mu.Unlock()
+}
+
+func (s *Shared) push(j Job) {
+	s.mu.Lock()
+	if !s.stopped[j.h] {
+		s.jobs = append(s.jobs, j)
+	}
+	s.mu.Unlock()
+	s.cond.Signal()
+}
+
+func (s *Shared) pop() (Job, bool) {
+	s.mu.Lock()
+	defer s.mu.Unlock()
+	s.idle++
+	for len(s.jobs) == 0 && !s.stop {
+		if s.idle == s.workers {
+			s.stop = true
+			s.cond.Broadcast()
+			return Job{}, false
+		}
+		s.cond.Wait()
+	}
+	if len(s.jobs) == 0 {
+		return Job{}, false
+	}
+	s.idle--
+	// oldest first: the initial jobs (one per harness) are started before any is split further
+	j := s.jobs[0]
+	s.jobs = s.jobs[1:]
+	return j, true
+}
+
+func (m *Machine) initResult(entry *ssa.Function, name string) {
 	m.res = Result{Harness: name, Ends: map[string]int{}, Undischarged: map[string]int{}, Reached: map[string]int{}}
 	m.touched = map[*ssa.Function]bool{}
 	m.intrinsicHits = map[string]int{}
 	m.stubHits = map[string]int{}
 	m.knownHit = map[string]int{}
-	m.res.ExpectedReach = scanReach(entry)
-	for _, c := range m.opts.Prefix {
-		m.stack = append(m.stack, decision{kind: "", chosen: c, n: c + 1, tested: true, forced: true})
-	}
-	exhausted := true
+}
+
+// exploreJob explores the subtree below the decision prefix `job`; returns false if exploration must stop.
+func (m *Machine) exploreJob(entry *ssa.Function, job []decision) bool {
+	m.stack = job
+	m.base = len(job)
 	for {
 		if m.res.Paths >= m.opts.MaxPaths {
 			m.note("path_cap", fmt.Sprintf("path cap %d reached", m.opts.MaxPaths))
-			exhausted = false
-			break
+			return false
 		}
 		if !m.opts.Deadline.IsZero() && time.Now().After(m.opts.Deadline) {
 			m.note("deadline", "time budget exhausted before the path space was")
-			exhausted = false
-			break
+			return false
+		}
+		if m.shared != nil && m.shared.isStopped(m.hidx) {
+			return false
 		}
 		m.res.Paths++
+		before := m.solver.Stats
 		end := m.runPath(entry)
+		m.accSolver(before)
 		m.res.Steps += m.steps + m.initSteps
 		m.initSteps = 0
 		m.res.Ends[end.kind]++
@@ -637,7 +838,7 @@ func (m *Machine) explore(entry *ssa.Function, name string) *Result {
 			for _, r := range m.reachedNow {
 				m.res.Reached[r]++
 			}
-			if len(m.res.Samples) < 3 {
+			if len(m.res.Samples) < 3 && end.kind == "done" {
 				m.res.Samples = append(m.res.Samples, PathSample{Decisions: m.decisionString(), End: end.kind, PCSize: len(m.pc), Reached: m.reachedNow})
 			}
 		case "infeasible", "abort":
@@ -652,12 +853,8 @@ func (m *Machine) explore(entry *ssa.Function, name string) *Result {
 				m.res.Reached[r]++
 			}
 		case "panic":
-			// uncaught panic of the code under test on a feasible path
-			r, model := Unknown, map[string]*big.Int(nil)
-			_ = r
 			v := &Violation{ID: "uncaught_panic", Msg: end.msg, Kind: "panic", Decisions: m.decisionString(),
-				Choices: append([]int{}, m.choices...), Inputs: append([]inputVar{}, m.inputs...), Model: m.lastModel()}
-			_ = model
+				Choices: append([]int{}, m.choices...), Inputs: append([]inputVar{}, m.inputs...), Model: m.endModel}
 			if kf := m.matchKnown(v); kf != nil {
 				m.knownHit[kf.AssertID]++
 			} else {
@@ -669,30 +866,188 @@ func (m *Machine) explore(entry *ssa.Function, name string) *Result {
 				fmt.Fprintln(os.Stderr, end.msg)
 			}
 		}
-		if len(m.res.Violations) > 0 && !m.opts.Verbose {
-			exhausted = false
-			break
+		if len(m.res.Violations) >= m.opts.MaxViolations {
+			return false
 		}
 		if !m.backtrack() {
-			break
+			return true
 		}
 	}
-	m.res.Exhausted = exhausted && len(m.res.Undischarged) == 0
+}
+
+func (m *Machine) finishResult() *Result {
 	for fn := range m.touched {
 		m.res.Functions = append(m.res.Functions, fn.String())
 	}
 	sort.Strings(m.res.Functions)
 	m.res.Intrinsics = m.intrinsicHits
 	m.res.Stubs = m.stubHits
-	m.res.Solver = m.solver.Stats
+	m.res.Solver = m.solverAcc
 	m.res.InitSkips = m.initSkips
-	for _, e := range m.res.ExpectedReach {
-		if m.res.Reached[e] == 0 {
-			m.res.MissingReach = append(m.res.MissingReach, e)
-		}
-	}
-	m.res.WallS = time.Since(t0).Seconds()
+	m.res.KnownHits = m.knownHit
 	return &m.res
+}
+
+type Entry struct {
+	Name  string
+	Fn    *ssa.Function
+	Known []KnownFinding
+}
+
+// exploreAll explores all harnesses with one pool of workers sharing a queue of decision prefixes.
+func exploreAll(l *loaded, entries []Entry, opts Options, workers int, cross int) ([]*Result, error) {
+	t0 := time.Now()
+	sh := newShared(workers)
+	for h := range entries {
+		sh.jobs = append(sh.jobs, Job{h: h, stack: []decision{}})
+	}
+	type wres struct {
+		res      map[int]*Result
+		complete map[int]bool
+	}
+	wr := make([]wres, workers)
+	started := make([]time.Time, len(entries))
+	finished := make([]time.Time, len(entries))
+	var tmu sync.Mutex
+	var wg sync.WaitGroup
+	for w := 0; w < workers; w++ {
+		solver, err := NewSolver(opts.TimeoutMs, opts.FallbackMs)
+		if err != nil {
+			return nil, err
+		}
+		solver.crossEvery = cross
+		wr[w] = wres{res: map[int]*Result{}, complete: map[int]bool{}}
+		wg.Add(1)
+		go func(w int, solver *Solver) {
+			defer wg.Done()
+			defer solver.Close()
+			machines := map[int]*Machine{}
+			for {
+				job, more := sh.pop()
+				if !more {
+					break
+				}
+				m := machines[job.h]
+				if m == nil {
+					m = newMachineWith(l, opts, solver)
+					m.shared = sh
+					m.hidx = job.h
+					m.known = entries[job.h].Known
+					m.initResult(entries[job.h].Fn, entries[job.h].Name)
+					machines[job.h] = m
+					wr[w].complete[job.h] = true
+					tmu.Lock()
+					if started[job.h].IsZero() {
+						started[job.h] = time.Now()
+					}
+					tmu.Unlock()
+				}
+				if !m.exploreJob(entries[job.h].Fn, job.stack) {
+					wr[w].complete[job.h] = false
+					sh.stopHarness(job.h)
+				}
+				tmu.Lock()
+				finished[job.h] = time.Now()
+				tmu.Unlock()
+			}
+			for h, m := range machines {
+				// solver statistics are per worker; attribute deltas per harness
+				wr[w].res[h] = m.finishResult()
+			}
+		}(w, solver)
+	}
+	wg.Wait()
+	var out []*Result
+	for h, e := range entries {
+		res := &Result{Harness: e.Name, Ends: map[string]int{}, Undischarged: map[string]int{}, Reached: map[string]int{},
+			Intrinsics: map[string]int{}, Stubs: map[string]int{}, KnownHits: map[string]int{}}
+		fnset := map[string]bool{}
+		all := true
+		nw := 0
+		for w := range wr {
+			r := wr[w].res[h]
+			if r == nil {
+				continue
+			}
+			nw++
+			all = all && wr[w].complete[h]
+			res.Paths += r.Paths
+			res.PathsDone += r.PathsDone
+			res.Decisions += r.Decisions
+			res.AssertChecks += r.AssertChecks
+			res.AssertsProved += r.AssertsProved
+			res.AssertsConcrete += r.AssertsConcrete
+			res.Steps += r.Steps
+			res.InitSkips += r.InitSkips
+			for k, v := range r.Ends {
+				res.Ends[k] += v
+			}
+			for k, v := range r.Undischarged {
+				res.Undischarged[k] += v
+			}
+			for _, msg := range r.UndischargedMsgs {
+				dup := false
+				for _, x := range res.UndischargedMsgs {
+					dup = dup || x == msg
+				}
+				if !dup && len(res.UndischargedMsgs) < 40 {
+					res.UndischargedMsgs = append(res.UndischargedMsgs, msg)
+				}
+			}
+			for k, v := range r.Reached {
+				res.Reached[k] += v
+			}
+			for k, v := range r.Intrinsics {
+				res.Intrinsics[k] += v
+			}
+			for k, v := range r.Stubs {
+				res.Stubs[k] += v
+			}
+			for k, v := range r.KnownHits {
+				res.KnownHits[k] += v
+			}
+			for _, f := range r.Functions {
+				fnset[f] = true
+			}
+			res.Violations = append(res.Violations, r.Violations...)
+			if len(res.Samples) < 4 {
+				res.Samples = append(res.Samples, r.Samples...)
+			}
+			ss := &res.Solver
+			rs := r.Solver
+			ss.Queries += rs.Queries
+			ss.Sat += rs.Sat
+			ss.Unsat += rs.Unsat
+			ss.Unknown += rs.Unknown
+			ss.Fallbacks += rs.Fallbacks
+			ss.FallbackOK += rs.FallbackOK
+			ss.Errors += rs.Errors
+			ss.Seconds += rs.Seconds
+			ss.CrossChecked += rs.CrossChecked
+			ss.Disagreements += rs.Disagreements
+			if rs.MaxQuerySec > ss.MaxQuerySec {
+				ss.MaxQuerySec = rs.MaxQuerySec
+			}
+		}
+		for f := range fnset {
+			res.Functions = append(res.Functions, f)
+		}
+		sort.Strings(res.Functions)
+		res.ExpectedReach = scanReach(e.Fn)
+		for _, lab := range res.ExpectedReach {
+			if res.Reached[lab] == 0 {
+				res.MissingReach = append(res.MissingReach, lab)
+			}
+		}
+		res.Exhausted = all && len(res.Undischarged) == 0 && nw > 0
+		if !finished[h].IsZero() {
+			res.WallS = finished[h].Sub(started[h]).Seconds()
+		}
+		res.Workers = nw
+		out = append(out, res)
+	}
+	_ = t0
+	return out, nil
 }
 
 func firstLine(s string) string {
@@ -772,4 +1127,76 @@ func scanReach(entry *ssa.Function) []string {
 	}
 	sort.Strings(r)
 	return r
+}
+
+// exportHashes describes the ideal-hash applications of the path under the model, so that a replay
+// file can be re-targeted at the real hash function (see checks/check.py realise()).
+func (m *Machine) exportHashes(model map[string]*big.Int) []map[string]interface{} {
+	if model == nil {
+		return nil
+	}
+	save, saveMemo := m.model, m.modelMemo
+	m.setModel(model)
+	defer func() { m.model, m.modelMemo = save, saveMemo }()
+	outVar := map[*Term]int{}
+	for i, a := range m.hashApps {
+		if a.outT != nil && a.outT.Op == "var" {
+			outVar[a.outT] = i
+		}
+	}
+	var out []map[string]interface{}
+	for _, a := range m.hashApps {
+		e := map[string]interface{}{"kind": a.kind, "conc": a.conc}
+		var in []interface{}
+		for _, b := range a.in {
+			switch b := b.(type) {
+			case int64:
+				in = append(in, map[string]interface{}{"c": b})
+			case *Term:
+				switch {
+				case b.Op == "var":
+					in = append(in, map[string]interface{}{"v": b.Name})
+				case b.Op == "extract" && b.Args[0].Op == "var" && b.W == 8:
+					if j, ok := outVar[b.Args[0]]; ok {
+						in = append(in, map[string]interface{}{"h": j, "i": (b.Args[0].W - 1 - b.P1) / 8})
+						continue
+					}
+					fallthrough
+				default:
+					in = append(in, map[string]interface{}{"e": m.evalTerm(b).Int64()})
+				}
+			}
+		}
+		e["in"] = in
+		var ob []int64
+		for _, b := range a.out {
+			switch b := b.(type) {
+			case int64:
+				ob = append(ob, b)
+			case *Term:
+				ob = append(ob, m.evalTerm(b).Int64())
+			}
+		}
+		e["out"] = ob
+		out = append(out, e)
+	}
+	return out
+}
+
+func (m *Machine) accSolver(b SolverStats) {
+	a := m.solver.Stats
+	s := &m.solverAcc
+	s.Queries += a.Queries - b.Queries
+	s.Sat += a.Sat - b.Sat
+	s.Unsat += a.Unsat - b.Unsat
+	s.Unknown += a.Unknown - b.Unknown
+	s.Fallbacks += a.Fallbacks - b.Fallbacks
+	s.FallbackOK += a.FallbackOK - b.FallbackOK
+	s.Errors += a.Errors - b.Errors
+	s.Seconds += a.Seconds - b.Seconds
+	s.CrossChecked += a.CrossChecked - b.CrossChecked
+	s.Disagreements += a.Disagreements - b.Disagreements
+	if a.MaxQuerySec > s.MaxQuerySec {
+		s.MaxQuerySec = a.MaxQuerySec
+	}
 }
